@@ -47,13 +47,29 @@ def r1(ctx, retsets):
     M = mutator_closure(pdb)
     eod = pdb.enum_value("EOD")
     n = 0
+    # the session check may sit in a helper whose verdict is tested afterwards: then it is not a dominating branch of the call, but
+    # with the comparison answered 'different session' no mutator is executed on any path
+    SESS = ("load", ("fld", SOCK, "rtr_socket.session_id"))
+    under_mismatch = set()
+
+    def oracle(inst, pred, a, b, E):
+        if pred in ("eq", "ne") and SESS in (a, b):
+            return pred == "ne"
+        return None
+
+    def classify(inst, E, st):
+        if inst.op == "call" and inst.callee in M:
+            under_mismatch.add(inst.id)
+        return None
+    es.count_effects(fn, pdb, classify, retsets, oracle=oracle, cap=96)
     for c in fn.calls():
         if not c.callee or c.callee not in M:
             continue
         n += 1
         G = es.Guards(fn, c)
         is_eod = bool(G.find_eq(lambda x: True, lambda y: y == ("c", eod)))
-        sess = bool(G.find_eq(lambda x: x == ("load", ("fld", SOCK, "rtr_socket.session_id")), lambda y: True))
+        sess = bool(G.find_eq(lambda x: x == SESS, lambda y: True)) or \
+            (c.id not in under_mismatch and any(i.op == "icmp" and SESS in (vf.expr(fn, i["a"]), vf.expr(fn, i["b"])) for i in fn.all_insts()))
         ctx.check(is_eod and sess, "C03.R1", "%s@%s" % (c.callee, _ord(fn, c)), c.loc(),
                   "dominated by type==EOD: %s, by the passed session check: %s" % (is_eod, sess), key="C03.R1:%s" % c.callee)
     ctx.floor("C03.R1", n, 10)
@@ -251,6 +267,11 @@ def r2_r3_r4(ctx, retsets):
         e = vf.expr(fn, call.args[2])
         r = vf.root_of(e)
         return r
+    shared = [c for c in fn.calls() if c.callee in UNDO and not any(fn.dom(up, c) for L, up in apply_loops)]
+    if shared:
+        raise AnalysisBroken("%s: the roll-back at line %d is one block reached from several apply loops (it belongs to no single failing "
+                             "update call): how far each family is undone then depends on counters carried to that block, which the per-arm "
+                             "coverage rule does not follow" % (fn.name, shared[0].line))
     fams = []
     for k, (L, up) in enumerate(apply_loops):
         fam = family(up)
